@@ -2,6 +2,7 @@ package h
 
 import (
 	"errors"
+	"math"
 	"strings"
 
 	z "github.com/Oudwins/zog"
@@ -26,8 +27,8 @@ func init() { Registry["C07"] = C07_Run }
 //  hist/<prior>/<probe>  explicit histories: a prior call (options, outcome, optional Collect)
 //                   followed by the probe, compared with the probe alone.
 
-var c07Probes = []string{"int-test", "int-coerce", "int-required", "struct", "slice", "custom-issue", "ptr-validate", "null-json", "msgfunc", "shared-schema", "outside-tests", "i18n-default"}
-var c07Priors = []string{"ctxvalue", "formatter", "failing-struct", "collect-map", "collect-list", "catching", "panicking", "null-json", "shared-then-collect", "tests-ran", "i18n-es", "empty-tag"}
+var c07Probes = []string{"int-test", "int-coerce", "int-required", "struct", "slice", "custom-issue", "ptr-validate", "null-json", "msgfunc", "shared-schema", "outside-tests", "i18n-default", "negzero-param"}
+var c07Priors = []string{"ctxvalue", "formatter", "failing-struct", "collect-map", "collect-list", "catching", "panicking", "null-json", "shared-then-collect", "tests-ran", "i18n-es", "empty-tag", "collect-root", "poszero-param"}
 
 func C07_Jobs() []string {
 	var out []string
@@ -63,6 +64,9 @@ func eqAny(a, b any) bool {
 	case bool:
 		y, ok := b.(bool)
 		return ok && x == y
+	case float64:
+		y, ok := b.(float64)
+		return ok && v.SameBits(x, y)
 	}
 	return false
 }
@@ -217,6 +221,19 @@ func c07Probe(kind string, g, x int) *c07Obs {
 		obsList(o, ppv.Validate(&n))
 		var ds struct{ A string }
 		obsMap(o, z.Struct(z.Schema{"a": z.String().PostTransform(func(val any, c z.Ctx) error { return errors.New("rejected") })}).Parse(map[string]any{"a": "abc"}, &ds))
+	case "negzero-param":
+		// messages render this call's parameters: -0 is not +0, 2^53+1 is not 2^53
+		negZero := math.Copysign(0, -1)
+		d := -1.5
+		e1 := z.Float64().GT(negZero).Parse(-1.5, &d)
+		obsList(o, e1)
+		var ds struct{ F float64 }
+		obsMap(o, z.Struct(z.Schema{"f": z.Float64().LTE(negZero)}).Parse(map[string]any{"f": 3.5}, &ds))
+		n := 0
+		e3 := z.Int().GT(1<<53+1).Parse(5, &n)
+		obsList(o, e3)
+		// (process-wide state outlives ClearPools: checked absolutely as well)
+		v.Assert(len(e1) == 1 && strings.HasSuffix(e1[0].Message, "than -0") && len(e3) == 1 && strings.HasSuffix(e3[0].Message, "9007199254740993"), "C07:result-depends-on-earlier-executions")
 	case "i18n-default":
 		// with i18n installed (by C07_Run, once, before the prior call), a call that names no
 		// language is formatted in the default language
@@ -354,6 +371,22 @@ func c07Prior(kind string) {
 		sc := z.Struct(z.Schema{"kind": z.String(), "name": z.String().Min(1), "in": z.Struct(z.Schema{"kind": z.String(), "city": z.String().Min(v.Choice("city-min", 2) * 9)})})
 		sc.Parse(map[string]any{"": "k", "name": "n", "in": map[string]any{"": "k", "city": "c"}}, &d)
 		sc.Validate(&d)
+	case "collect-root":
+		// an earlier result whose FIRST issue sits at the root, handed back through CollectMap
+		var l []string
+		z.Issues.CollectMap(z.Slice(z.String()).Min(2).Parse([]any{"a"}, &l))
+		var d struct{ A int }
+		z.Issues.SanitizeMapAndCollect(z.Struct(z.Schema{"a": z.Int()}).TestFunc(func(p any, c z.Ctx) bool { return false }).Parse(map[string]any{"a": 1}, &d))
+		var pd *int
+		z.Issues.CollectMap(z.Ptr(z.Int()).NotNil().Parse(nil, &pd))
+	case "poszero-param":
+		// earlier calls whose messages rendered +0 and 2^53 as parameters
+		f := -1.5
+		z.Float64().GT(0.0).Parse(-1.5, &f)
+		z.Float64().LTE(0.0).Validate(&f)
+		n := 5
+		z.Int().GT(1<<53).Parse(5, &n)
+		z.Float64().GT(float64(1<<53)).Parse(5.0, &f)
 	case "tests-ran":
 		// executions whose last test carried a code, params and an IssuePath (passing and failing)
 		d := ""
